@@ -9,4 +9,7 @@ Definition K_PreMergeEpochs : N := 1897.
 Definition K_ShanghaiBlockNumber : N := 17034870.
 Definition K_capellaForkEpoch : N := 194048.
 Definition K_epochSize : N := 8192.
+Definition K_proverEpochSize : N := 8192.
+Definition K_proverMergeBlockNumber : N := 15537394.
+Definition K_proverPreMergeEpochs : N := 1897.
 Definition K_slotsPerEpoch : N := 32.
